@@ -12,6 +12,7 @@ HYPOTHESES = ['HB1 (structure C05.HB1): additivity of the Miller-loop pairing in
 NOT_YET_PROVED = ['bilinearity itself (HB1). Proved around it: pairing values are r-th roots of unity (C05_Order, four implementations), e(G2,G1) != 1 of order exactly r by kernel evaluation (PropsHeavy/C05_Nondeg), optimized = reference pairings (C12_Miller, C12_MillerBn)']
 ASSUMPTIONS = []
 nontrivial = nontrivial_default
+EXTRA_MODULES = {"Props.TiePairing": "PyEcc.Tie.", "Props.TieMiller": "PyEcc.Tie."}
 CHUNK = 1
 
 
@@ -112,6 +113,39 @@ def rep_independence_pred(mod, a, b):
     return (not bad, f"{mod}: pairing depends on the representative: {bad[:4]} (a={a}, b={b})")
 
 
+def lib_sum_pred(mod, a, b, seed):
+    """additivity with the sum computed by the LIBRARY's own add/double/multiply on arbitrary representatives (incl. the same
+    point given twice in different representations): e(add(A, A'), P) == e(A, P) * e(A', P)"""
+    import importlib
+    import random
+    import pyexec
+    rng = random.Random(seed)
+    M = importlib.import_module(pyexec.MODS[mod])
+    g12 = grp(mod, "G12")
+    C12 = pyexec.fcls(g12.spec)
+    bad = []
+    if mod.startswith("Opt"):
+        def resc(T, k):
+            return tuple(c * k for c in T)
+        A = M.multiply(M.G2, a)
+        A2 = resc(M.multiply(M.G2, a), rng.randrange(2, 1000))
+        B = M.multiply(M.G2, b)
+        P1 = M.multiply(M.G1, 7)
+        P1b = resc(P1, rng.randrange(2, 1000))
+        e = lambda Q, P: M.pairing(Q, P)  # noqa: E731
+        if not (e(M.add(A, A2), P1) == e(A, P1) * e(A2, P1)):
+            bad.append("G2 argument: the same point in two representations")
+        if not (e(M.add(A, B), P1) == e(A, P1) * e(B, P1)):
+            bad.append("G2 argument: generic sum")
+        if not (e(A, M.add(P1, P1b)) == e(A, P1) * e(A, P1b)):
+            bad.append("G1 argument: the same point in two representations")
+    else:
+        A, B, P1 = M.multiply(M.G2, a), M.multiply(M.G2, b), M.multiply(M.G1, 7)
+        if not (M.pairing(M.add(A, B), P1) == M.pairing(A, P1) * M.pairing(B, P1)):
+            bad.append("G2 argument: generic sum")
+    return (not bad, f"{mod}: pairing of a library-computed sum != product of pairings: {bad} (a={a}, b={b})")
+
+
 def edge_pred(mod):
     import importlib
     import pyexec
@@ -151,6 +185,8 @@ def predicates(rng, tier, only=None):
     ps = []
     for mod in IMPLS:
         ps.append(Pred("pairing-edges", edge_pred, (mod,)))
+        if mod.startswith("Opt") or tier == "thorough":
+            ps.append(Pred("bilinear", lib_sum_pred, (mod, rng.randrange(2, 1 << 64), rng.randrange(2, 1 << 64), rng.randrange(1 << 30))))
         if mod.startswith("Opt"):
             rr = grp(mod, "G1").order
             ps.append(Pred("representative-independence", rep_independence_pred, (mod, rng.randrange(1, rr), rng.randrange(1, rr))))
